@@ -73,6 +73,9 @@ theorem idxOf_append_of_not_mem {c : UInt8} {a b : Bytes} (h : c ∉ a) :
 
 theorem idxOf_cons_self {c : UInt8} {l : Bytes} : idxOf c (c :: l) = some 0 := by simp [idxOf]
 
+theorem idxOf_at {c : UInt8} {a t : Bytes} (h : c ∉ a) : idxOf c (a ++ c :: t) = some a.length := by
+  rw [idxOf_append_of_not_mem h, idxOf_cons_self]; simp
+
 -- ---------------------------------------------------------------- reads
 theorem rd_ok {doc : Bytes} {i : Nat} (h : i < doc.length) : rd doc i = .ok doc[i] := by
   simp [rd, List.getElem?_eq_getElem h]
